@@ -1,3 +1,4 @@
+mod bitslice;
 mod common;
 mod fam_d;
 mod fam_e;
